@@ -8,7 +8,7 @@ from common import IRQ, MSG, V, digest
 
 STR = ['a', 'b', ' ', 'é', '名', '✓', '"', "'", '\\', '\n', '\t', '😀', '0', '$', '<', '/', '[', ':']
 INTS = [0, 1, -1, 2 ** 31 - 1, 2 ** 31, 2 ** 31 + 1, -2 ** 31, -2 ** 31 - 1, 2 ** 32, -2 ** 32, 2 ** 53 - 1, -(2 ** 53 - 1), 3000000000, 255, 65536, 10 ** 12]
-FLOATS = [0.1, 1.5, -0.25, 1e21, 5e-324, 123456.789, -1e-7, 2.5e10]
+FLOATS = [0.1, 1.5, -0.25, 1e21, 5e-324, 123456.789, -1e-7, 2.5e10, 1e300, -1.5e19, 9.3e18, 2.0 ** 63, -(2.0 ** 63), 4.5e15]
 
 
 def gen_value(r, d=0):
@@ -130,7 +130,7 @@ def gen_template(r):
         parts.append('{{' + pad + e[0] + pad + '}}')
         expect += text_of(e[1])
         lit = r.choice(LIT if i < n - 1 else LIT + ['', ''])
-        if n >= 1 and i == n - 1 and not parts[0] and not lit:
+        if n == 1 and i == n - 1 and not parts[0] and not lit:
             lit = '.'      # keep it a mixed string (a sole template spanning the string is the typed case above)
         parts.append(lit)
         expect += lit
